@@ -43,7 +43,19 @@ def scalar(lo, lo_incl, hi, hi_incl, integer, optional):
     def f(v):
         if v is None:
             return A if optional else R
-        if isinstance(v, bool) or isinstance(v, np.generic):
+        if isinstance(v, bool):
+            return U
+        if isinstance(v, np.generic):
+            # numpy scalars: whether the TYPE is accepted is left open, but a value outside the documented domain (bounds,
+            # integrality, NaN) must be rejected whatever its type
+            try:
+                fv = float(v)
+            except Exception:
+                return R
+            if fv != fv or not (fv >= lo if lo_incl else fv > lo) or (hi is not None and not (fv <= hi if hi_incl else fv < hi)):
+                return R
+            if integer and (fv in (inf, -inf) or not fv.is_integer()):
+                return R
             return U
         if not isnum(v):
             return R
@@ -116,7 +128,10 @@ BASE = ['None', '0', '1', '2', '3', '-1', '0.0', '1.0', '0.5', '0.8', '0.9', '0.
         '1e-300', '5e-324', '-0.0', '90', '4.000000000000001',
         # falsy / empty containers and other wrong types (a test written as `if not value` would wave them through)
         "''", '[]', '()', '{}', '1j', "'abc'", "b'1'", 'set()', '(None, None)', '(1, None)', '((1,), (2,))', 'range(1, 3)',
-        '[0.1, 0.4]', 'np.array([1, 2])', 'np.nan', '(np.int64(1), np.int64(2))', '1e308 * 10']
+        '[0.1, 0.4]', 'np.array([1, 2])', 'np.nan', '(np.int64(1), np.int64(2))', '1e308 * 10',
+        # real numbers of other types: non-integral / out-of-domain values must be rejected whatever the type
+        'np.float32(2.5)', 'np.float16(30.5)', 'np.float64(7.5)', 'np.float32(-1.0)', 'np.int64(0)', 'np.float32(0.5)',
+        'Fraction(7, 2)', 'Fraction(3, 1)', 'Decimal("2.5")', 'Decimal("3")']
 for _b in (0.0, 0.8, 0.9, 1.0, 2.0, 3.0):
     BASE += ['nxt(%r)' % _b, 'prv(%r)' % _b]
 _PA = ['0', '1', '2', '0.0', '0.1', '0.5', '1.0', 'prv(1.0)', 'nxt(0.0)', 'nan', 'inf', '-1', '1.5', '2.0', 'True', "'a'", 'None']
@@ -133,7 +148,9 @@ REDUCED.update(
 
 
 def ev(expr):
-    return eval(expr, {'inf': inf, 'nan': nan, 'np': np, 'nxt': nxt, 'prv': prv})
+    from decimal import Decimal
+    from fractions import Fraction
+    return eval(expr, {'inf': inf, 'nan': nan, 'np': np, 'nxt': nxt, 'prv': prv, 'Fraction': Fraction, 'Decimal': Decimal})
 
 
 def cases(tier, seed):
